@@ -60,10 +60,10 @@ def run() -> None:
     _check(rc._blk_enc(k256, pt).hex() == "8ea2b7ca516745bfeafc49904b496089", "AES-256 KAT")
     _check(rc._blk_dec(k256, rc._blk_enc(k256, pt)) == pt, "AES-256 inverse")
 
-    # CRC-8: table implementation == bitwise; library table == bitwise for all 256 single bytes
-    import msmart.crc8 as libcrc
+    # CRC-8: the reference's table implementation == its bitwise implementation (the library's table is compared
+    # with the bitwise CRC by C12, not here: a defect there is a violation, not a harness error)
     for i in range(256):
-        _check(rc.crc8_bitwise(bytes([i])) == libcrc._CRC8_854_TABLE[i], f"crc table entry {i}")
+        _check(rc.crc8_bitwise(bytes([i, 0x5A, i ^ 0xFF])) == rc.crc8(bytes([i, 0x5A, i ^ 0xFF])), f"reference crc table entry {i}")
     _check(rc.crc8(b"123456789") == rc.crc8_bitwise(b"123456789") == 0xA1, "CRC-8/MAXIM check value")
 
     # V2 capture
